@@ -165,6 +165,9 @@ enum Res {
     Err(Vec<&'static str>),
     /// client-side exception: Connection.Close with one of these codes, sealed; or one of the errors
     Exception(Vec<u16>, Vec<&'static str>),
+    /// the statement leaves the choice: the event is tolerated (and then everything the
+    /// reference says about it holds) or the connection ends with one of these errors
+    Either(Vec<&'static str>),
 }
 
 #[derive(Default, Clone, Debug)]
@@ -185,7 +188,7 @@ impl Expect {
 }
 
 fn show_props(p: &AmqpProperties) -> String {
-    format!("{:?}/{:?}", p.content_type(), p.priority())
+    format!("{:?}", p)
 }
 
 fn want_delivery(start: Ev, p: bool, body: &[u8]) -> String {
@@ -339,7 +342,9 @@ impl RefConn {
         // ---- frames
         match self.st {
             ConnSt::ClientException => return (Res::Ok, ex),
-            ConnSt::ServerClosing | ConnSt::ClientClosed => return (Res::Err(vec!["FrameUnexpected"]), ex),
+            // (nothing in the statements says whether frames behind the server's Close / the
+            // CloseOk are an error or are ignored)
+            ConnSt::ServerClosing | ConnSt::ClientClosed => return (Res::Either(vec!["FrameUnexpected"]), ex),
             ConnSt::Steady => {}
         }
         let chan_of = |ev: Ev| -> Option<u16> {
@@ -384,7 +389,9 @@ impl RefConn {
                 return (Res::Ok, ex);
             }
             Ev::Ch0Other(_) => return (exception(self, vec![540, 530], vec![]), ex),
-            Ev::Header(0, _, _) | Ev::Body(0, _) => return (exception(self, vec![530], vec![]), ex),
+            // content on channel 0: C07 asks for an error; which one (a plain error or a client
+            // exception with one of the framing / not-allowed codes) is the implementation's choice
+            Ev::Header(0, _, _) | Ev::Body(0, _) => return (exception(self, vec![530, 503, 504, 505], vec!["FrameUnexpected", "ReceivedFrameWithBogusChannelId"]), ex),
             _ => {}
         }
         let n = chan_of(ev).unwrap();
@@ -397,7 +404,7 @@ impl RefConn {
         }
         if !open {
             return match ev {
-                Ev::ChCloseOk(_) => (Res::Ok, ex), // tolerated: close race
+                Ev::ChCloseOk(_) => (Res::Either(vec!["ReceivedFrameWithBogusChannelId"]), ex), // may be tolerated: close race
                 _ => (Res::Err(vec!["ReceivedFrameWithBogusChannelId"]), ex),
             };
         }
@@ -407,8 +414,14 @@ impl RefConn {
                 if coll != Coll::None {
                     return (Res::Err(vec!["FrameUnexpected"]), ex);
                 }
+                let unknown_tag = matches!(ev, Ev::Deliver(_, t) if !self.chans.get(&n).unwrap().0.consumers.contains_key(&t));
                 self.chans.get_mut(&n).unwrap().1 = Coll::Started(ev);
-                (Res::Ok, ex)
+                // an unknown tag may be refused at the Deliver frame or when the content is complete
+                if unknown_tag {
+                    (Res::Either(vec!["UnknownConsumerTag"]), ex)
+                } else {
+                    (Res::Ok, ex)
+                }
             }
             Ev::Header(_, size, p) => match coll {
                 Coll::Started(start) => {
@@ -455,6 +468,7 @@ impl RefConn {
             }
             Ev::CancelSrv(_, t, nowait) => {
                 let ch = &mut self.chans.get_mut(&n).unwrap().0;
+                let known = ch.consumers.contains_key(&t);
                 if let Some(id) = ch.consumers.remove(&t) {
                     ex.say(format!("consumer#{}", id), "ServerCancelled".into());
                     ex.say(format!("consumer#{}", id), "DISCONNECTED".into());
@@ -463,7 +477,13 @@ impl RefConn {
                 if !nowait && !self.sealed {
                     ex.wrote.push(AMQPFrame::Method(n, AMQPClass::Basic(basic::AMQPMethod::CancelOk(basic::CancelOk { consumer_tag: TAGS[t as usize].into() }))));
                 }
-                (Res::Ok, ex)
+                // cancelling a tag nobody holds (e.g. one the client cancelled a moment ago) may be
+                // answered like any other cancel or be refused as an unknown tag
+                if known {
+                    (Res::Ok, ex)
+                } else {
+                    (Res::Either(vec!["UnknownConsumerTag"]), ex)
+                }
             }
             Ev::CancelOk(_, t) => {
                 let ch = &mut self.chans.get_mut(&n).unwrap().0;
@@ -708,6 +728,12 @@ impl Real {
 // one step with its oracle
 // ---------------------------------------------------------------------------------------
 
+/// A line that hands a message or a notification payload to somebody (as opposed to an error
+/// result, a plain method reply or a disconnect).
+fn is_message(l: &str) -> bool {
+    ["Delivery ", "Get ", "Return ", "Ack ", "Nack ", "Blocked", "Unblocked"].iter().any(|p| l.starts_with(p))
+}
+
 /// Outcome of a judged step.
 enum Judged {
     Continue,
@@ -750,12 +776,14 @@ fn judge_step(real: &mut Real, rf: &mut RefConn, ev: Ev, all_chans: &[u16]) -> J
     match (&want_res, &res) {
         (Res::Ok, Ok(())) => {}
         (Res::Ok, Err(e)) => return Judged::Violation(format!("unexpected-error:{}", err_name(e)), format!("a valid event ended the connection with {}", err_name(e))),
-        (Res::Err(allowed), Err(e)) => {
+        (Res::Either(_), Ok(())) => {}
+        (Res::Err(allowed), Err(e)) | (Res::Either(allowed), Err(e)) => {
             if !allowed.contains(&err_name(e).as_str()) {
                 return Judged::Violation(format!("wrong-error:{}", err_name(e)), format!("connection ended with {} expected one of {:?}", err_name(e), allowed));
             }
-            // nothing may have been delivered by the violating frame
-            let delivered: Vec<&String> = got.iter().filter(|(k, _)| k.starts_with("consumer") || k.starts_with("returns") || k.starts_with("confirms")).flat_map(|(_, v)| v.iter()).filter(|l| *l != "DISCONNECTED").collect();
+            // nothing may have been delivered by the violating frame (to anybody: consumers,
+            // listeners, or the caller waiting for a get)
+            let delivered: Vec<&String> = got.iter().flat_map(|(_, v)| v.iter()).filter(|l| is_message(l)).collect();
             if !delivered.is_empty() {
                 return Judged::Violation("delivered-on-violation".into(), format!("a violating frame still delivered {:?}", delivered));
             }
@@ -788,8 +816,9 @@ fn judge_step(real: &mut Real, rf: &mut RefConn, ev: Ev, all_chans: &[u16]) -> J
                     if !ok {
                         return Judged::Violation("exception-close-frame".into(), format!("wrote {:?} expected a single Connection.Close with code in {:?}", envs.iter().map(|e| e.decode().map(|f| vh::wire::brief(&f))).collect::<Vec<_>>(), codes));
                     }
-                    if !got.is_empty() {
-                        return Judged::Violation("delivered-on-violation".into(), format!("{:?}", got));
+                    let delivered: Vec<&String> = got.iter().flat_map(|(_, v)| v.iter()).filter(|l| is_message(l)).collect();
+                    if !delivered.is_empty() {
+                        return Judged::Violation("delivered-on-violation".into(), format!("{:?}", delivered));
                     }
                     return Judged::Continue;
                 }
@@ -984,9 +1013,20 @@ fn alphabet(mode: Mode, rf: &RefConn, thorough: bool) -> Vec<Ev> {
                     Some(x) => x,
                     None => continue,
                 };
-                if *coll != Coll::None {
-                    v.push(Ev::Header(n, 0, true));
-                    continue;
+                match coll {
+                    Coll::None => {}
+                    // a returned message in progress: bodyless, or a two-byte body in one or two frames
+                    Coll::Started(_) => {
+                        v.push(Ev::Header(n, 0, true));
+                        v.push(Ev::Header(n, 2, false));
+                        continue;
+                    }
+                    Coll::Body(_, _, size, got) => {
+                        for len in 1..=(*size - got.len() as u8) {
+                            v.push(Ev::Body(n, len));
+                        }
+                        continue;
+                    }
                 }
                 if n == 1 {
                     v.push(Ev::Ack(n, 1, false));
